@@ -194,7 +194,7 @@ pub fn record(prop: &str, rules_file: &str, out: &str, nwords: usize) {
                     if sum.samples.len() < 4 && o.out == "ok" { sum.sample(|| json!({"rule": text, "word": wt, "after": v::render_word(&after, &al), "class": cls})); }
                 }
             }
-            if prop == "C06" {
+            if prop == "C06" && env_u64("VERIF_SWEEPS", 1) == 1 {
                 // systematic stratum: the absent literal q at every position of small input templates (and, for insertion, context templates)
                 let in_templates: [&[&str]; 14] = [&["a"], &["a", "$"], &["$", "a"], &["a", "...", "t"], &["%=1", "1"], &["{%}"], &["{a, $}"], &["C=1", "V", "1"], &["a", "t"], &["%", "a"], &["<C V>"], &["V:[+long]"], &["[]=1", "1"], &["a", "%"]];
                 let ctx_templates: [(&[&str], &[&str]); 8] = [(&[], &["$"]), (&["$"], &[]), (&["a"], &[]), (&[], &["a"]), (&["%"], &[]), (&["a", "$"], &[]), (&[], &["$", "t"]), (&["#"], &["C"])];
@@ -283,7 +283,8 @@ pub fn record(prop: &str, rules_file: &str, out: &str, nwords: usize) {
             }
             // systematic stratum: every cardinal, its place sub-nodes removed one rule at a time in every order, then restored
             let names = ["labial", "coronal", "dorsal", "pharyngeal"];
-            for (g, seg) in t.cards.iter() {
+            let sweeps = env_u64("VERIF_SWEEPS", 1) == 1;       // the strata below do not depend on the generated rules: once per check is enough
+            for (g, seg) in t.cards.iter().filter(|_| sweeps) {
                 let present: Vec<usize> = (0..4).filter(|i| seg.get_node(NODES7[3 + i]).is_some()).collect();
                 let mut orders: Vec<Vec<usize>> = vec![vec![]];
                 for _ in 0..present.len() { orders = orders.into_iter().flat_map(|o| present.iter().filter(|x| !o.contains(x)).map(|x| { let mut n = o.clone(); n.push(*x); n }).collect::<Vec<_>>()).collect(); }
@@ -305,7 +306,7 @@ pub fn record(prop: &str, rules_file: &str, out: &str, nwords: usize) {
                 }
             }
             // systematic stratum: rules that can consume a whole (tiny) word
-            for wt in ["a", "ta", "at", "tat", "a.ta", "ta.ta", "ˈta", "ta5", "a.a", "t.a"] {
+            for wt in ["a", "ta", "at", "tat", "a.ta", "ta.ta", "ˈta", "ta5", "a.a", "t.a"].iter().filter(|_| sweeps) {
                 for rule in ["[] [] > *", "C V > *", "V C > *", "[] [] [] > *", "C V C > *", "[] $ [] > *", "% > *", "% % > *", "[] > *", "V > * / _#", "C > * / #_", "[] [] > * / #_#", "V $ C V > *", "{t, a} {t, a} > *"] {
                     let Ok(word) = v::parse_word(wt, &al) else { continue };
                     let out = run_rules(&[rule.to_string()], &word, 100_000, false);
@@ -320,7 +321,7 @@ pub fn record(prop: &str, rules_file: &str, out: &str, nwords: usize) {
                 }
             }
             // systematic stratum: tones of neighbouring syllables joined by every boundary-removing rule shape, for every ordered pair (and triple) of tones of 1..4 digits
-            for (ti, t1) in TONES.iter().enumerate() {
+            for (ti, t1) in TONES.iter().enumerate().filter(|_| sweeps) {
                 for t2 in TONES.iter() {
                     let t3 = TONES[(ti * 7 + 3) % TONES.len()];
                     for wt in [format!("ma{t1}.na{t2}"), format!("ma{t1}.na{t2}.ka{t3}"), format!("man{t1}.ka{t2}"), format!("ˈma{t1}ˌna{t2}")] {
